@@ -27,7 +27,11 @@ structure Batt (K : Type) where
   ts : K
   cmode : Calc
 
-inductive Err | valueError
+/-- `valueError`: the guards the code has (`raise ValueError`).  `zeroDivision`: the inputs on
+    which Python's float division raises `ZeroDivisionError` before any state is written
+    (capacity 0 in `_soc` / `pilot_dsoc`, max power 0 in `pilot_transition_soc`); the model
+    never totalises `x / 0`. -/
+inductive Err | valueError | zeroDivision
   deriving DecidableEq, Repr
 
 section
@@ -59,6 +63,15 @@ def idealCharge (b : Batt K) (pilot V T : K) : Except Err (Batt K × K) :=
     let cp := pyMin3 (pilot * V / (1000 : Nat)) b.maxPower rateToFull
     .ok ({ b with charge := b.charge + cp * (T / (60 : Nat)), power := cp }, cp * (1000 : Nat) / V)
 
+/-- Python's `x == 0` for a float (`-0.0 == 0` is true, `nan == 0` is false). -/
+@[inline] def isZero (x : K) : Bool := decide ((0 : K) ≤ x) && decide (x ≤ (0 : K))
+
+/-- battery.py:238-239 — the pilot's SoC rate, clamped at the maximum. -/
+def contPd (pd0 md : K) : K := if md < pd0 then md else pd0
+
+/-- battery.py:243-245 — the transition SoC that belongs to the (clamped) pilot. -/
+def contPts (ts pd md : K) : K := ts + (pd - md) / md * (ts - 1)
+
 /-- Final SoC of the closed form, battery.py:235-270 (noise-free part). -/
 def contSoc (soc ts pd0 md : K) : K :=
   let pd := if md < pd0 then md else pd0
@@ -72,10 +85,13 @@ def contSoc (soc ts pd0 md : K) : K :=
 def contCharge (b : Batt K) (pilot V T ν : K) : Except Err (Batt K × K) :=
   if V ≤ 0 then .error .valueError
   else if T ≤ 0 then .error .valueError
-  else if ¬ (pilot < 0) ∧ ¬ (0 < pilot) then .ok ({ b with power := 0 }, 0)
+  else if isZero pilot then .ok ({ b with power := 0 }, 0)
+  else if isZero b.capacity then .error .zeroDivision        -- `… / self._capacity`
   else
     let pd0 := pilot * V / (1000 : Nat) / b.capacity / ((60 : Nat) / T)
     let md := b.maxPower / b.capacity / ((60 : Nat) / T)
+    if isZero md then .error .zeroDivision                   -- `(pilot_dsoc - max_dsoc) / max_dsoc`
+    else
     let s := soc b
     let curr0 := contSoc s b.ts pd0 md
     let curr := if 0 < b.noiseLevel then pyMax (curr0 - absK (ν * (T / (60 : Nat)) / b.capacity)) s else curr0
@@ -87,6 +103,7 @@ def contCharge (b : Batt K) (pilot V T ν : K) : Except Err (Batt K × K) :=
 def stepCharge (b : Batt K) (pilot V T ν : K) : Except Err (Batt K × K) :=
   if V ≤ 0 then .error .valueError
   else if T ≤ 0 then .error .valueError
+  else if isZero b.capacity then .error .zeroDivision        -- `self._soc`
   else
     let rateToFull := (b.capacity - b.charge) / (T / (60 : Nat))
     let pp := pilot * V / (1000 : Nat)
@@ -116,6 +133,40 @@ def reset (b : Batt K) (initCharge : Option K) : Except Err (Batt K) :=
   match initCharge with
   | none => .ok { b with charge := b.init, power := 0 }
   | some c => if b.capacity < c then .error .valueError else .ok { b with charge := c, power := 0 }
+
+/-! ### operation sequences (histories) -/
+
+/-- One call on a battery object: `charge(pilot, voltage, period)` together with the normal
+    draw `ν` it will consume, or `reset(init_charge)`. -/
+inductive Op (K : Type) where
+  | charge (pilot V T ν : K)
+  | reset (init : Option K)
+
+/-- Result of one call: new state and returned rate (`reset` returns `None`, reported as 0). -/
+def applyOp (b : Batt K) : Op K → Except Err (Batt K × K)
+  | .charge pilot V T ν => charge b pilot V T ν
+  | .reset i =>
+    match reset b i with
+    | .ok b' => .ok (b', 0)
+    | .error e => .error e
+
+/-- A whole history: the state after each call and what the call returned.  Every exception
+    of the code is raised before the first write to `self`, so a failing call leaves the
+    state as it was and the history goes on. -/
+def runOps (b : Batt K) : List (Op K) → List (Batt K × Except Err K)
+  | [] => []
+  | o :: os =>
+    match applyOp b o with
+    | .ok (b', r) => (b', .ok r) :: runOps b' os
+    | .error e => (b, .error e) :: runOps b os
+
+/-- State after a whole history. -/
+def finalState (b : Batt K) : List (Op K) → Batt K
+  | [] => b
+  | o :: os =>
+    match applyOp b o with
+    | .ok (b', _) => finalState b' os
+    | .error _ => finalState b os
 
 end
 end Acn.Battery
